@@ -128,7 +128,143 @@ theorem nodup_rawSet {m : Mem} (h : (keys m.store).Nodup) (k : Key) (v : Val) (t
     exact hp.sublist (List.tail_sublist _)
   · exact hp
 
-theorem nodup_getMatch {name : Nat → List Char} {m : Mem} (h : (keys m.store).Nodup) (pat : List Char) :
-    (keys (getMatch name m pat).1.store).Nodup := nodup_getMany _ h
+theorem nodup_getMatch {name : Nat → List Char} {bits : Val → Bool} {m : Mem} (h : (keys m.store).Nodup) (pat : List Char) :
+    (keys (getMatch name bits m pat).1.store).Nodup := nodup_getMany _ h
+
+/-! ### `get_match`: which pairs come out -/
+
+/-- a pair is yielded iff the key is present for a reader, its text matches, the value it holds is not a
+bit-field object, and the second component is *that* value (never the default `none`) -/
+theorem mem_getMatch_iff {name : Nat → List Char} {bits : Val → Bool} {m : Mem} (hm : (keys m.store).Nodup)
+    (pat : List Char) (k : Key) (v : Option Val) :
+    (k, v) ∈ (getMatch name bits m pat).2 ↔
+      ∃ e, m.view k = some e ∧ glob pat (name k) = true ∧ bits e.val = false ∧ v = some e.val := by
+  rw [getMatch_out hm]
+  simp only [List.mem_map, List.mem_filter, sel, Bool.and_eq_true, Prod.mk.injEq, Bool.not_eq_true']
+  constructor
+  · rintro ⟨⟨k', e⟩, ⟨hmem, ⟨hl, hg⟩, hb⟩, rfl, rfl⟩
+    exact ⟨e, by simp [Mem.view, lookup_of_mem hm hmem, Option.filter, hl], hg, hb, rfl⟩
+  · rintro ⟨e, hv, hg, hb, rfl⟩
+    simp only [Mem.view, Option.filter_eq_some_iff] at hv
+    exact ⟨(k, e), ⟨mem_of_lookup hv.1, ⟨hv.2, hg⟩, hb⟩, rfl, rfl⟩
+
+theorem nodup_getMatch_out {name : Nat → List Char} {bits : Val → Bool} {m : Mem} (hm : (keys m.store).Nodup)
+    (pat : List Char) : (getMatch name bits m pat).2.Nodup := by
+  rw [getMatch_out hm]
+  have hk : ((m.store.filter (fun ke => sel name m.now pat ke && !bits ke.2.val)).map (·.1)).Nodup :=
+    nodup_keys_filter hm _
+  have hp := List.pairwise_map.mp hk
+  exact List.pairwise_map.mpr (hp.imp (fun {a b} (hne : a.1 ≠ b.1)
+    (heq : (a.1, some a.2.val) = (b.1, some b.2.val)) => hne (congrArg Prod.fst heq)))
+
+/-- the key holds a bit-field object (for a reader: a live entry whose value is one) -/
+def holdsBits (bits : Val → Bool) (m : Mem) (k : Key) : Bool :=
+  match m.view k with
+  | some e => bits e.val
+  | none => false
+
+/-- the keys `get_match` yields are the keys `scan` yields, in the same order, minus those holding a bit field -/
+theorem getMatch_keys {name : Nat → List Char} {bits : Val → Bool} {m : Mem} (hm : (keys m.store).Nodup)
+    (pat : List Char) :
+    (getMatch name bits m pat).2.map (·.1) = (scan name m pat).filter (fun k => !holdsBits bits m k) := by
+  rw [getMatch_out hm, scan_eq, List.map_map, List.filter_map, List.filter_filter]
+  have : ((fun x : Key × Option Val => x.1) ∘ fun ke : Key × Entry => (ke.1, some ke.2.val)) = (·.1) := rfl
+  rw [this]
+  congr 1
+  apply List.filter_congr
+  rintro ⟨k, e⟩ hmem
+  by_cases hs : sel name m.now pat (k, e) = true
+  · have hl : e.live m.now = true := by
+      simp only [sel, Bool.and_eq_true] at hs; exact hs.1
+    simp [hs, holdsBits, Mem.view, lookup_of_mem hm hmem, Option.filter, hl]
+  · simp [hs]
+
+/-- no entry of the store is a bit-field object -/
+def NoBits (bits : Val → Bool) (st : Store) : Prop := ∀ ke ∈ st, bits ke.2.val = false
+
+instance (bits : Val → Bool) (st : Store) : Decidable (NoBits bits st) := by unfold NoBits; infer_instance
+
+theorem holdsBits_of_noBits {bits : Val → Bool} {m : Mem} (h : NoBits bits m.store) (k : Key) :
+    holdsBits bits m k = false := by
+  unfold holdsBits
+  cases hv : m.view k with
+  | none => rfl
+  | some e =>
+    simp only [Mem.view, Option.filter_eq_some_iff] at hv
+    exact h (k, e) (mem_of_lookup hv.1)
+
+theorem noBits_filter {bits : Val → Bool} {st : Store} (h : NoBits bits st) (P : Key × Entry → Bool) :
+    NoBits bits (st.filter P) := fun ke hke => h ke (List.mem_filter.mp hke).1
+
+theorem noBits_erase {bits : Val → Bool} {st : Store} (h : NoBits bits st) (k : Key) : NoBits bits (erase st k) := by
+  rw [erase_eq_filter]; exact noBits_filter h _
+
+theorem noBits_put {bits : Val → Bool} {st : Store} (h : NoBits bits st) (k : Key) {e : Entry}
+    (he : bits e.val = false) : NoBits bits (put st k e) := by
+  intro ke hke
+  simp only [put, List.mem_append, List.mem_singleton] at hke
+  rcases hke with hke | rfl
+  · exact noBits_erase h k ke hke
+  · exact he
+
+theorem noBits_rawGet {bits : Val → Bool} {m : Mem} (h : NoBits bits m.store) (k : Key) :
+    NoBits bits (m.rawGet k).1.store := by
+  unfold Mem.rawGet
+  split
+  · exact h
+  · rename_i e hl
+    split
+    · exact noBits_put h k (h (k, e) (mem_of_lookup hl))
+    · exact noBits_erase h k
+
+theorem noBits_getMany {bits : Val → Bool} (ks : List Key) {m : Mem} (h : NoBits bits m.store) :
+    NoBits bits (m.getMany ks).1.store := by
+  induction ks generalizing m with
+  | nil => exact h
+  | cons k ks ih => exact ih (noBits_rawGet h k)
+
+theorem noBits_rawSet {bits : Val → Bool} {m : Mem} (h : NoBits bits m.store) (k : Key) {v : Val}
+    (hv : bits v = false) (ttl : Option Nat) : NoBits bits (m.rawSet k v ttl).store := by
+  unfold Mem.rawSet Mem.trim
+  have hp : NoBits bits (put m.store k ⟨v, m.newDeadline k ttl⟩) := noBits_put h k hv
+  simp only
+  split
+  · intro ke hke; exact hp ke (List.mem_of_mem_tail hke)
+  · exact hp
+
+namespace Tx
+
+/-- `get_match` inside a transaction, pair by pair, against the transaction's merged view: provided the overlay
+holds no bit-field object (`incr_bits` is proxied to the backend, never buffered), a pair is yielded iff the key
+is visible in the transaction, matches, what is visible is not a bit field, and the value is the visible one —
+the transaction's own write where there is one, never the store value it shadows. -/
+theorem mem_getMatch_iff {name : Nat → List Char} {bits : Val → Bool} {t : Tx} (hb : (keys t.backend).Nodup)
+    (ho : (keys t.overlay).Nodup) (hov : NoBits bits t.overlay) (pat : List Char) (k : Key) (v : Option Val) :
+    (k, v) ∈ (t.getMatch name bits pat).2 ↔
+      ∃ e, t.view k = some e ∧ glob pat (name k) = true ∧ bits e.val = false ∧ v = some e.val := by
+  unfold Tx.getMatch
+  simp only [List.mem_append, List.mem_filter, Bool.and_eq_true, Bool.not_eq_true', List.contains_eq_mem,
+    decide_eq_false_iff_not]
+  rw [getMatch_keys (m := t.omem) ho, Glob.mem_getMatch_iff (m := t.omem) ho, Glob.mem_getMatch_iff (m := t.bmem) hb]
+  simp only [List.mem_filter, Glob.mem_scan_iff (m := t.omem) ho, holdsBits_of_noBits (m := t.omem) hov]
+  unfold Tx.view
+  cases hovw : t.omem.view k with
+  | some e =>
+    by_cases hg : glob pat (name k) = true <;> simp [hg]
+  | none =>
+    by_cases hdel : k ∈ t.del <;> simp [hdel]
+
+theorem nodup_getMatch_out {name : Nat → List Char} {bits : Val → Bool} {t : Tx} (hb : (keys t.backend).Nodup)
+    (ho : (keys t.overlay).Nodup) (pat : List Char) : (t.getMatch name bits pat).2.Nodup := by
+  unfold Tx.getMatch
+  refine List.nodup_append.mpr ⟨Glob.nodup_getMatch_out (m := t.omem) ho pat,
+    (Glob.nodup_getMatch_out (m := t.bmem) hb pat).filter _, ?_⟩
+  intro a ha b hb' hab
+  subst hab
+  simp only [List.mem_filter, Bool.and_eq_true, Bool.not_eq_true', List.contains_eq_mem,
+    decide_eq_false_iff_not] at hb'
+  exact hb'.2.2 (List.mem_map.mpr ⟨a, ha, rfl⟩)
+
+end Tx
 
 end CashewsVerif.Glob
